@@ -70,7 +70,7 @@ def enc(x, depth=0):
         for k, v in vars(c).items():
             if k.startswith("_") or callable(v) or isinstance(v, (property, staticmethod, classmethod)):
                 continue
-            if isinstance(v, (list, dict, set, bytearray)) and len(v) <= 24:
+            if isinstance(v, (list, dict, set, bytearray)) and len(v) <= 64:
                 attrs[k] = v
     attrs.update(inst)
     return ["O", cls] + sorted([k, enc(v, depth + 1)] for k, v in attrs.items() if not k.startswith("__"))
@@ -141,6 +141,7 @@ def preload(prop, workers=0):
     CLASSES.update(
         Suite=C.Suite, Bar=C.Bar, Track=C.Track, NoteContainer=C.NoteContainer, Composition=C.Composition, Note=C.Note,
         OutMidiFile=mfo.MidiFile, InMidiFile=mfi.MidiFile, MidiTrack=mt.MidiTrack, Instrument=I.Instrument, MidiInstrument=I.MidiInstrument,
+        MidiPercussionInstrument=I.MidiPercussionInstrument,
         Piano=I.Piano, Sequencer=sq.Sequencer,
     )
     FREQS = _freqs()
@@ -347,6 +348,12 @@ def _steps():
             lambda o: setattr(o, "tuning", "mine"),
             lambda o: setattr(o, "name", "mine"),
         ],
+        "MidiPercussionInstrument": [
+            lambda o: o.mapping.__setitem__(35, "Kick"),
+            lambda o: o.mapping.pop(36, None),
+            lambda o: setattr(o, "name", "my kit"),
+            lambda o: o.bass_drum_1(),
+        ],
         "MidiInstrument": [
             lambda o: setattr(o, "instrument_nr", 9),
             lambda o: setattr(o, "name", "Violin"),
@@ -355,7 +362,10 @@ def _steps():
     }
 
 
-INST_CLASSES = ["Suite", "Composition", "Track", "Bar", "NoteContainer", "Note", "OutMidiFile", "InMidiFile", "MidiTrack", "Sequencer", "Instrument", "MidiInstrument"]
+PURE_THEN = {"ascending", "descending", "degree", "to_hertz", "to_shorthand", "determine", "note_in_range", "can_play_notes", "get_midi_data", "int_to_varbyte"}
+OBJ_ENTRIES = [i for i, e in enumerate(CATALOG) if "then" in e and e["then"][0] in PURE_THEN]
+
+INST_CLASSES = ["MidiPercussionInstrument", "Suite", "Composition", "Track", "Bar", "NoteContainer", "Note", "OutMidiFile", "InMidiFile", "MidiTrack", "Sequencer", "Instrument", "MidiInstrument"]
 
 NOTE_MUT = [
     lambda n: n.transpose("3"),
@@ -450,6 +460,38 @@ class Exec(object):
         if kind == "ok":
             cl["results"].append((name, r))
         cl["args"].append((name, args))
+
+    def do_obj_query(self, op):
+        """the same question put again to an object the client already holds
+        (a pure query method): the answer must equal the cold answer however
+        often it was asked and whatever the receiver did to earlier answers"""
+        if not OBJ_ENTRIES:
+            return
+        i = OBJ_ENTRIES[op["e"] % len(OBJ_ENTRIES)]
+        e = CATALOG[i]
+        name = e["mod"] + "." + e["fn"] + "." + e["then"][0]
+        cl = self.clients[op.get("c", 0)]
+        held = cl.setdefault("held", {})
+        try:
+            if i not in held:
+                held[i] = getattr(MODS[e["mod"]], e["fn"])(*copy.deepcopy(e["args"]), **copy.deepcopy(e.get("kw", {})))
+            else:
+                self.probes["method_asked_again_on_held_object"] += 1
+            r = getattr(held[i], e["then"][0])(*copy.deepcopy(e["then"][1:]))
+            got = json.dumps(enc(r), sort_keys=True)
+        except Exception as ex:
+            r = None
+            got = json.dumps(["EXC", type(ex).__name__], sort_keys=True)
+        self.nq += 1
+        self.clauses["C15.same_value"] += 1
+        self.trace.ev("obj_query", op.get("c"), i, name, hashlib.sha256(got.encode()).hexdigest()[:16])
+        self.shape.append("o:" + e["mod"])
+        if got != COLD[i]:
+            poisoned = bool(self.scribbled)
+            self.fail("C15.result_private" if poisoned else "C15.same_value", "%s%r asked again on the same object returned %s, a fresh object in a cold interpreter returns %s" % (name, tuple(e["args"]), got[:300], COLD[i][:300]), fn=name)
+        self.called.add(name)
+        if r is not None:
+            cl["results"].append((name, r))
 
     def do_scribble(self, op):
         cl = self.clients[op.get("c", 0)]
@@ -682,7 +724,14 @@ def generate(rng, prop, tier):
             ops.append(o)
         elif mix == "scribble" or (mix == "all" and r < 0.6):
             rr = rng.random()
-            if rr < 0.45 or c not in last_q:
+            if rr < 0.25:
+                # ask an object the client holds, mutate what came back, ask the same object again
+                e = rng.randrange(10 ** 6)
+                ops.append({"op": "obj_query", "c": c, "e": e})
+                if rng.random() < 0.7:
+                    ops.append({"op": "scribble", "c": c, "r": -1, "how": rng.choice(SCRIBBLES[:8])})
+                ops.append({"op": "obj_query", "c": c, "e": e})
+            elif rr < 0.45 or c not in last_q:
                 o = q(c)
                 last_q[c] = o["e"]
                 ops.append(o)
@@ -738,7 +787,7 @@ def describe(prop):
         "rule": "Each run interleaves 2-4 simulated clients on one process, one library call per step (the seeded schedule is the sequence of client ids): queries from a catalog of %d (function, arguments) entries covering %d public functions of mingus.core, mutation of values the library returned or of arguments it was given (the injected fault), operation scripts on the client's own container/MIDI/sequencer instances, copies, and stateful frequency lookups. Every query result is compared with the value a cold interpreter (forked, first and only call) returns. Non-trivial = at least two effective steps. Distinct = distinct run shape (sequence of step kinds with module / class / scribble kind)." % (len(CATALOG), len(fns)),
         "state_measure": "distinct pairs (catalog entry, set of function names called before it in the process + set of function names whose results/arguments were mutated before it)",
         "fault_kinds": ["scribble", "reuse_arg", "instance_op"],
-        "probes": ["mismatch_after_scribble", "query_after_scribble_on_same_function", "function_name_api_after_numeral_scribble", "substitution_depth_ge_1", "suite_created_after_sibling_added", "lookup_same_slot", "lookup_next_slot", "lookup_restart"],
+        "probes": ["method_asked_again_on_held_object", "mismatch_after_scribble", "query_after_scribble_on_same_function", "function_name_api_after_numeral_scribble", "substitution_depth_ge_1", "suite_created_after_sibling_added", "lookup_same_slot", "lookup_next_slot", "lookup_restart"],
         "clauses": ["C15.same_value", "C15.result_private", "C15.args_untouched", "C15.siblings", "C15.copy_independent", "C15.lookup"],
         "components_real": ["mingus.core.{notes,intervals,keys,scales,chords,progressions,value,meter} public functions: " + ", ".join(fns), "mingus.containers classes", "mingus.midi.midi_file_out.MidiFile, midi_file_in.MidiFile, midi_track.MidiTrack, sequencer.Sequencer", "mingus.extra.fft._find_log_index"],
         "components_stub": ["none inside the library; clients and their schedule are simulated; the oracle is a cold interpreter process per catalog entry"],
